@@ -23,12 +23,16 @@ use grin_core::pow;
 use grin_keychain::{Identifier, Keychain, SwitchCommitmentType};
 use grin_pool::types::{PoolAdapter, PoolConfig, PoolEntry, PoolError, TxSource};
 use grin_pool::TransactionPool;
-use grin_servers::common::adapters::{ChainToPoolAndNetAdapter, PoolToChainAdapter};
+use grin_chain::{SyncState, SyncStatus};
+use grin_p2p::ChainAdapter as P2pChainAdapter;
+use grin_pool::DandelionConfig;
+use grin_servers::common::adapters::{ChainToPoolAndNetAdapter, DandelionAdapter, NetToChainAdapter, PoolToChainAdapter, PoolToNetAdapter};
 use grin_servers::common::hooks::ChainEvents;
+use grin_servers::verif_export::{get_block, monitor_transactions, verif_process_expired_entries, verif_process_fluff_phase};
 use grin_util::RwLock;
 use gvharness::chainkit::*;
 use gvharness::*;
-use std::collections::{BTreeMap, BTreeSet};
+use std::collections::{BTreeMap, BTreeSet, HashMap};
 use std::sync::atomic::{AtomicBool, Ordering};
 use std::sync::{Arc, Mutex};
 
@@ -64,14 +68,12 @@ impl ChainEvents for StatusHook {
 	}
 }
 
-type Pool = TransactionPool<PoolToChainAdapter, PAdapter>;
-
-struct Node {
+struct Node<P: PoolAdapter + 'static = PAdapter> {
 	kit: Kit,
 	node: Arc<Chain>,
-	pool: Arc<RwLock<Pool>>,
-	_peers: Arc<grin_p2p::Peers>,
-	_chain_adapter: Arc<ChainToPoolAndNetAdapter<PoolToChainAdapter, PAdapter>>,
+	pool: Arc<RwLock<TransactionPool<PoolToChainAdapter, P>>>,
+	peers: Arc<grin_p2p::Peers>,
+	_chain_adapter: Arc<ChainToPoolAndNetAdapter<PoolToChainAdapter, P>>,
 	last_status: Arc<Mutex<Option<&'static str>>>,
 	stem_ok: Arc<AtomicBool>,
 	/// kit id of the node's head
@@ -82,26 +84,54 @@ struct Node {
 	name: String,
 	out: String,
 	last_probe: String,
+	/// protocol mode (run `monitor`): transactions described to the model, kernel ids, outputs described
+	reg: Vec<Transaction>,
+	kers: HashMap<grin_core::core::hash::Hash, usize>,
+	outs_described: usize,
+	max_pool: usize,
+	max_stem: usize,
+	verdict_key: String,
+	verdict: bool,
 }
 
-impl Node {
-	fn new(work: &str, name: &str) -> Node {
+impl Node<PAdapter> {
+	fn new(work: &str, name: &str) -> Node<PAdapter> {
+		let stem_ok = Arc::new(AtomicBool::new(true));
+		let mut n = Node::with_adapter(work, name, 50, 50, |_peers| Arc::new(PAdapter { stem_ok: stem_ok.clone() }));
+		n.stem_ok = stem_ok;
+		n
+	}
+}
+
+impl<P: PoolAdapter + 'static> Node<P> {
+	/// `mk_adapter` gets the `Peers` object (created before the pool, as server.rs does for the
+	/// pool-to-net adapter via `init`)
+	fn with_adapter(
+		work: &str,
+		name: &str,
+		max_pool: usize,
+		max_stem: usize,
+		mk_adapter: impl FnOnce(&Arc<grin_p2p::Peers>) -> Arc<P>,
+	) -> Node<P> {
 		let kit = Kit::new(&format!("{}/builder_{}", work, name));
 		global::set_local_accept_fee_base(FEE_BASE);
 		let dir = format!("{}/node_{}", work, name);
 		let _ = std::fs::remove_dir_all(&dir);
 		let stem_ok = Arc::new(AtomicBool::new(true));
 		let pool_adapter = Arc::new(PoolToChainAdapter::new());
+		// a Peers object without peers, as servers/src/grin/server.rs hands it to the adapters
+		let store = grin_p2p::store::PeerStore::new(&format!("{}/peers", dir)).unwrap();
+		let peers = Arc::new(grin_p2p::Peers::new(store, Arc::new(grin_p2p::DummyAdapter {}), grin_p2p::P2PConfig::default()));
 		let pool = Arc::new(RwLock::new(TransactionPool::new(
 			PoolConfig {
 				accept_fee_base: FEE_BASE,
 				reorg_cache_period: 30,
-				max_pool_size: 50,
-				max_stempool_size: 50,
+				max_pool_size: max_pool,
+				max_stempool_size: max_stem,
 				mineable_max_weight: 250,
 			},
 			pool_adapter.clone(),
-			Arc::new(PAdapter { stem_ok: stem_ok.clone() }),
+			mk_adapter(&peers),
 		)));
 		let last_status = Arc::new(Mutex::new(None));
 		let chain_adapter = Arc::new(ChainToPoolAndNetAdapter::new(
@@ -112,9 +142,6 @@ impl Node {
 			Chain::init(dir.clone(), chain_adapter.clone(), kit.genesis.clone(), pow::verify_size, false, None).unwrap(),
 		);
 		pool_adapter.set_chain(node.clone());
-		// a Peers object without peers, as servers/src/grin/server.rs hands it to the adapter
-		let store = grin_p2p::store::PeerStore::new(&format!("{}/peers", dir)).unwrap();
-		let peers = Arc::new(grin_p2p::Peers::new(store, Arc::new(grin_p2p::DummyAdapter {}), grin_p2p::P2PConfig::default()));
 		chain_adapter.init(peers.clone());
 		let mut states = BTreeMap::new();
 		let mut s0 = BTreeMap::new();
@@ -124,7 +151,7 @@ impl Node {
 			kit,
 			node,
 			pool,
-			_peers: peers,
+			peers,
 			_chain_adapter: chain_adapter,
 			last_status,
 			stem_ok,
@@ -134,6 +161,13 @@ impl Node {
 			name: name.to_string(),
 			out: String::new(),
 			last_probe: String::new(),
+			reg: vec![],
+			kers: HashMap::new(),
+			outs_described: 0,
+			max_pool,
+			max_stem,
+			verdict_key: String::new(),
+			verdict: false,
 		}
 	}
 
@@ -538,11 +572,11 @@ fn fill_pool(n: &mut Node, rng: &mut Rng, count: usize) {
 }
 
 /// the content of a block on top of `parent` relative to the pool: (txs, label)
-fn block_content(n: &mut Node, rng: &mut Rng, parent: usize) -> (Vec<Transaction>, &'static str) {
+fn block_content<P: PoolAdapter + 'static>(n: &mut Node<P>, rng: &mut Rng, parent: usize) -> (Vec<Transaction>, &'static str) {
 	let (txs, stem) = n.entries();
 	let st = n.states[&parent].clone();
 	let h = n.kit.blks[parent].height + 1;
-	let applies = |n: &Node, t: &Transaction, extra: &BTreeSet<usize>| n.tx_ins(t).iter().all(|i| st.contains_key(i) || extra.contains(i));
+	let applies = |n: &Node<P>, t: &Transaction, extra: &BTreeSet<usize>| n.tx_ins(t).iter().all(|i| st.contains_key(i) || extra.contains(i));
 	match rng.below(10) {
 		0..=3 => {
 			// confirm a subset of the pool (txpool and stempool), parents before children
@@ -605,7 +639,7 @@ fn block_content(n: &mut Node, rng: &mut Rng, parent: usize) -> (Vec<Transaction
 	}
 }
 
-fn build_with_fallback(n: &mut Node, parent: usize, diff: u64, mut txs: Vec<Transaction>) -> Option<usize> {
+fn build_with_fallback<P: PoolAdapter + 'static>(n: &mut Node<P>, parent: usize, diff: u64, mut txs: Vec<Transaction>) -> Option<usize> {
 	let mut id = n.build_block(parent, diff, &txs);
 	while id.is_none() && !txs.is_empty() {
 		txs.pop();
@@ -704,6 +738,805 @@ fn run_history(work: &str, hist: usize, seed: u64, rounds: usize) -> (String, BT
 	(out, stats)
 }
 
+// ------------------------------------------------------------------------------------------
+// run `monitor`: the node-side callers of the pool with the real net-side adapters, described to
+// the Lean model in the line protocol of the `pool` domain (Model/PoolNode.lean, Drv/PoolD.lean)
+//
+// * `NetToChainAdapter::transaction_received` (real; sync state NoSync / syncing),
+// * `PoolToNetAdapter::stem_tx_accepted` + `DandelionEpoch` (real; a `Peers` object without peers,
+//   so a stem epoch finds no relay and the pool falls back to fluff; a fluff epoch keeps the
+//   transaction in the stempool for the monitor),
+// * the Dandelion monitor (`servers/src/grin/dandelion_monitor.rs`): the whole stempool
+//   re-validated on top of the txpool (`validate_raw_txs` with an extra transaction), aggregated,
+//   submitted as ONE fluff transaction; embargo expiry one by one,
+// * the miner's block builder (`servers/src/mining/mine_block.rs`).
+
+/// the epoch as the monitor sees it: `is_stem` / `next_epoch` are the real adapter's; `is_expired`
+/// can be forced (the real one is a clock comparison: start of the epoch + epoch_secs < now)
+struct MonAdapter {
+	inner: Arc<PoolToNetAdapter>,
+	force_expired: AtomicBool,
+}
+impl DandelionAdapter for MonAdapter {
+	fn is_stem(&self) -> bool {
+		self.inner.is_stem()
+	}
+	fn is_expired(&self) -> bool {
+		self.force_expired.load(Ordering::SeqCst) || self.inner.is_expired()
+	}
+	fn next_epoch(&self) {
+		self.inner.next_epoch()
+	}
+}
+
+fn perr(e: &PoolError) -> String {
+	let alnum = |s: String| -> String { s.chars().take_while(|c| c.is_alphanumeric()).collect() };
+	match e {
+		PoolError::InvalidTx(t) => format!("InvalidTx:{}", alnum(format!("{:?}", t))),
+		PoolError::LowFeeTransaction(_) => "LowFee".into(),
+		PoolError::Other(_) => "Other".into(),
+		e => alnum(format!("{:?}", e)),
+	}
+}
+
+fn src_letter(s: TxSource) -> &'static str {
+	match s {
+		TxSource::PushApi => "P",
+		TxSource::Broadcast => "B",
+		TxSource::Fluff => "F",
+		TxSource::EmbargoExpired => "E",
+		TxSource::Deaggregate => "D",
+	}
+}
+
+fn idlist(v: &[usize], p: &str, sep: &str) -> String {
+	let mut v = v.to_vec();
+	v.sort();
+	v.iter().map(|i| format!("{}{}", p, i)).collect::<Vec<_>>().join(sep)
+}
+
+impl<P: PoolAdapter + 'static> Node<P> {
+	fn kid(&mut self, k: &grin_core::core::TxKernel) -> usize {
+		let h = k.hash();
+		let n = self.kers.len();
+		*self.kers.entry(h).or_insert(n)
+	}
+	fn psig(&mut self, tx: &Transaction) -> String {
+		let ks: Vec<usize> = tx.kernels().iter().map(|k| self.kid(k)).collect();
+		format!("{}/{}/{}", idlist(&ks, "k", "."), idlist(&self.tx_ins(tx), "o", "."), idlist(&self.tx_outs(tx), "o", "."))
+	}
+	fn p_describe_outs(&mut self) {
+		let lines: Vec<String> = self.kit.outs[self.outs_described..]
+			.iter()
+			.map(|o| format!("pool out o{} cb={} v={}", o.id, if o.coinbase { 1 } else { 0 }, o.value))
+			.collect();
+		for l in lines {
+			self.raw(&l);
+		}
+		self.outs_described = self.kit.outs.len();
+	}
+	/// describe a transaction to the model; returns its id
+	fn p_tx(&mut self, tx: &Transaction) -> usize {
+		self.p_describe_outs();
+		let id = self.reg.len();
+		let mut kd: Vec<(usize, String)> = vec![];
+		for k in tx.kernels() {
+			let kid = self.kid(k);
+			let d = match k.features {
+				KernelFeatures::Coinbase => format!("k{}:cb", kid),
+				KernelFeatures::Plain { fee } => format!("k{}:p:{}:{}", kid, fee.fee(), fee.fee_shift()),
+				KernelFeatures::HeightLocked { fee, lock_height } => format!("k{}:hl:{}:{}:{}", kid, fee.fee(), fee.fee_shift(), lock_height),
+				KernelFeatures::NoRecentDuplicate { fee, relative_height } => format!(
+					"k{}:nrd:{}:{}:{}:{}",
+					kid,
+					fee.fee(),
+					fee.fee_shift(),
+					u64::from(relative_height),
+					hex(&k.excess.0[..8])
+				),
+			};
+			kd.push((kid, d));
+		}
+		kd.sort();
+		let l = format!(
+			"pool tx t{} ins=[{}] outs=[{}] kers=[{}] tags=[]",
+			id,
+			idlist(&self.tx_ins(tx), "o", ","),
+			idlist(&self.tx_outs(tx), "o", ","),
+			kd.iter().map(|x| x.1.clone()).collect::<Vec<_>>().join(",")
+		);
+		self.raw(&l);
+		self.reg.push(tx.clone());
+		id
+	}
+	/// id of a registered transaction with these kernels (pool entries are stored in converted form)
+	fn reg_id(&self, tx: &Transaction) -> Option<usize> {
+		self.reg.iter().position(|r| r.kernels() == tx.kernels())
+	}
+	fn p_cfg(&mut self) {
+		self.raw("pool reset");
+		let l = format!(
+			"pool cfg max_pool={} max_stem={} mine_w=250 fee_base={} max_tx_w={} max_block_w={} maturity={}",
+			self.max_pool,
+			self.max_stem,
+			FEE_BASE,
+			global::max_tx_weight(),
+			global::max_block_weight(),
+			MATURITY
+		);
+		self.raw(&l);
+	}
+	fn p_head(&mut self) {
+		self.p_describe_outs();
+		let hh = self.node.head_header().unwrap();
+		let id = *self.kit.by_hash.get(&hh.hash()).expect("node head known to the kit");
+		self.head = id;
+		let mut u = vec![];
+		for o in &self.kit.outs {
+			if let Ok(Some((oi, pos))) = self.node.get_unspent(o.commit) {
+				u.push(format!("o{}:{}:{}", o.id, pos.height, if oi.features.is_coinbase() { 1 } else { 0 }));
+			}
+		}
+		let l = format!("pool head b{} h={} ver={} utxo=[{}] nrd=[]", id, hh.height, hh.version.0, u.join(","));
+		self.raw(&l);
+	}
+	fn orphan_list(&mut self, txs: &[Transaction]) -> String {
+		let created: BTreeSet<usize> = txs.iter().flat_map(|t| self.tx_outs(t)).collect();
+		let mut items = vec![];
+		for t in txs {
+			let mut ins = self.tx_ins(t);
+			ins.sort();
+			for i in ins {
+				if !created.contains(&i) && !self.unspent(i) {
+					let sig = self.psig(t);
+					items.push(format!("{}@o{}", sig, i));
+				}
+			}
+		}
+		format!("[{}]", items.join(","))
+	}
+	/// the state of the three pools + the property's oracle, in the format of `pool obs`
+	fn p_obs(&mut self, ctx: &str) {
+		self.oracle(ctx);
+		let (te, se, ce): (Vec<PoolEntry>, Vec<PoolEntry>, Vec<PoolEntry>) = {
+			let p = self.pool.read();
+			let c = p.reorg_cache.read().iter().cloned().collect();
+			(p.txpool.entries.clone(), p.stempool.entries.clone(), c)
+		};
+		let mut show = |n: &mut Node<P>, v: &Vec<PoolEntry>| -> String {
+			v.iter().map(|e| format!("{}:{}", n.psig(&e.tx), src_letter(e.src))).collect::<Vec<_>>().join(",")
+		};
+		let t = show(self, &te);
+		let s = show(self, &se);
+		let c = show(self, &ce);
+		let txs: Vec<Transaction> = te.iter().map(|e| e.tx.clone()).collect();
+		let mut both: Vec<Transaction> = se.iter().map(|e| e.tx.clone()).collect();
+		both.extend(txs.clone());
+		let av = self.orphan_list(&txs);
+		let avs = self.orphan_list(&both);
+		let jv = if self.validate_set(&txs).is_ok() { "ok" } else { "bad" };
+		let jvs = if self.validate_set(&both).is_ok() { "ok" } else { "bad" };
+		let mineable = self.pool.read().prepare_mineable_transactions();
+		let mine = match mineable {
+			Err(e) => format!("err:{}", perr(&e)),
+			Ok(set) => {
+				let sigs: Vec<String> = set.iter().map(|t| self.psig(t)).collect();
+				let key = format!("{}|{}", self.head, sigs.join(","));
+				let verdict = if key == self.verdict_key {
+					self.verdict
+				} else {
+					let v = match self.kit.assemble(self.head, 1, &set, 0) {
+						Err(_) => false,
+						// a scratch chain decides
+						Ok(b) => self.kit.builder().process_block(b, Options::SKIP_POW).is_ok(),
+					};
+					self.verdict_key = key;
+					self.verdict = v;
+					v
+				};
+				format!("[{}]:{}", sigs.join(","), if verdict { "ok" } else { "rejected" })
+			}
+		};
+		let l = format!("pool obs => tx=[{}] stem=[{}] cache=[{}] jv={} jvs={} av={} avs={} mine={}", t, s, c, jv, jvs, av, avs, mine);
+		self.raw(&l);
+	}
+	/// deliver a block through the node's chain (the real adapter reconciles the pool) and describe it
+	fn p_deliver(&mut self, bid: usize, opts: Options, what: &str) -> String {
+		let b = self.kit.blks[bid].block.clone();
+		let res = self.deliver(bid, opts, what);
+		if res == "next" || res == "reorg" {
+			let ins: Vec<CommitWrapper> = b.inputs().into();
+			let ins: Vec<usize> = ins.iter().map(|i| self.oid(&i.commitment())).collect();
+			let ks: Vec<usize> = b.kernels().iter().map(|k| self.kid(k)).collect();
+			self.p_head();
+			// (the adapter drops the result of reconcile_block: `let _ = ...`)
+			let l = format!("pool reconcile_block b{} ins=[{}] kers=[{}] => ok", bid, idlist(&ins, "o", ","), idlist(&ks, "k", ","));
+			self.raw(&l);
+			if res == "reorg" {
+				let l = format!("pool reconcile_reorg_cache b{} => ok", bid);
+				self.raw(&l);
+			}
+			self.p_obs(&format!("block b{} {}", bid, res));
+		}
+		res
+	}
+}
+
+struct Mon {
+	n: Node<PoolToNetAdapter>,
+	net: Arc<PoolToNetAdapter>,
+	mon: Arc<MonAdapter>,
+	recv: NetToChainAdapter<PoolToChainAdapter, PoolToNetAdapter>,
+	sync: Arc<SyncState>,
+	dcfg: DandelionConfig,
+}
+
+/// far beyond anything the run itself can age: the timers only fire for backdated entries
+const AGG_SECS: u16 = 3000;
+const EMBARGO_SECS: u16 = 6000;
+
+impl Mon {
+	fn new(work: &str, name: &str, stem_probability: u8, always_stem_our_txs: bool, max_pool: usize, max_stem: usize) -> Mon {
+		let dcfg = DandelionConfig {
+			epoch_secs: 60_000,
+			embargo_secs: EMBARGO_SECS,
+			aggregation_secs: AGG_SECS,
+			stem_probability,
+			always_stem_our_txs,
+		};
+		let mut net_slot: Option<Arc<PoolToNetAdapter>> = None;
+		let n: Node<PoolToNetAdapter> = Node::with_adapter(work, name, max_pool, max_stem, |peers| {
+			let a = Arc::new(PoolToNetAdapter::new(dcfg.clone()));
+			a.init(peers.clone());
+			net_slot = Some(a.clone());
+			a
+		});
+		let net = net_slot.unwrap();
+		let sync = Arc::new(SyncState::new());
+		sync.update(SyncStatus::NoSync);
+		let recv = NetToChainAdapter::new(sync.clone(), n.node.clone(), n.pool.clone(), grin_servers::ServerConfig::default(), vec![]);
+		recv.init(n.peers.clone());
+		let mon = Arc::new(MonAdapter { inner: net.clone(), force_expired: AtomicBool::new(false) });
+		Mon { n, net, mon, recv, sync, dcfg }
+	}
+
+	fn epoch_args(&self) -> String {
+		format!(
+			"stemepoch={} expired={} always={} relay=none",
+			if self.net.is_stem() { 1 } else { 0 },
+			if self.mon.is_expired() { 1 } else { 0 },
+			if self.dcfg.always_stem_our_txs { 1 } else { 0 }
+		)
+	}
+
+	/// a transaction from a peer: the real `NetToChainAdapter::transaction_received`
+	fn receive(&mut self, tx: Transaction, stem: bool, syncing: bool, kind: &str) -> bool {
+		let t = self.n.p_tx(&tx);
+		if syncing {
+			self.sync.update(SyncStatus::AwaitingPeers(true));
+		}
+		let ep = self.epoch_args();
+		let r = catch(std::panic::AssertUnwindSafe(|| self.recv.transaction_received(tx.clone(), stem)));
+		self.sync.update(SyncStatus::NoSync);
+		let res = match &r {
+			Ok(Ok(b)) => format!("{}", b),
+			Ok(Err(e)) => format!("err:{}", error_class(e)),
+			Err(p) => format!("panic:{}", p.replace(' ', "_")),
+		};
+		let lhs = format!("pool recv t{} syncing={} stem={} {} form=v3", t, if syncing { 1 } else { 0 }, if stem { 1 } else { 0 }, ep);
+		self.n.raw(&format!("{} => {}", lhs, res));
+		self.n.stat(&format!("recv:{}:{}:{}:{}", kind, if stem { "stem" } else { "fluff" }, if syncing { "syncing" } else { "nosync" }, res));
+		if res.starts_with("panic") {
+			self.n.raw(&format!("#ORACLE-FAIL C14 node-transaction-received-panicked hist={} {} => {}", self.n.name, lhs, res));
+		}
+		self.n.p_obs(&lhs);
+		res == "true" && !syncing
+	}
+
+	/// a transaction pushed through the API (`src`), straight into `add_to_pool`
+	fn push(&mut self, tx: Transaction, src: TxSource, stem: bool, kind: &str) -> bool {
+		let t = self.n.p_tx(&tx);
+		let ep = self.epoch_args();
+		let header = self.n.node.head_header().unwrap();
+		let pool = self.n.pool.clone();
+		let r = catch(std::panic::AssertUnwindSafe(|| pool.write().add_to_pool(src, tx.clone(), stem, &header)));
+		let res = match &r {
+			Ok(Ok(())) => "ok".to_string(),
+			Ok(Err(e)) => format!("err:{}", perr(e)),
+			Err(p) => format!("panic:{}", p.replace(' ', "_")),
+		};
+		let lhs = format!("pool push t{} src={} stem={} {} form=v3", t, src_letter(src), if stem { 1 } else { 0 }, ep);
+		self.n.raw(&format!("{} => {}", lhs, res));
+		self.n.stat(&format!("push:{}:{}:{}:{}", kind, src_letter(src), if stem { "stem" } else { "fluff" }, res));
+		if res.starts_with("panic") {
+			self.n.raw(&format!("#ORACLE-FAIL C14 node-pool-panicked hist={} {} => {}", self.n.name, lhs, res));
+		}
+		self.n.p_obs(&lhs);
+		res == "ok"
+	}
+
+	/// the real `PoolToNetAdapter::stem_tx_accepted` asked directly
+	fn probe_relay(&mut self, src: TxSource) {
+		let ep = self.epoch_args();
+		let e = match self.n.pool.read().stempool.entries.first().cloned() {
+			Some(e) => PoolEntry { src, ..e },
+			None => return,
+		};
+		let r = self.net.stem_tx_accepted(&e).is_ok();
+		self.n.raw(&format!("pool stem_accepted src={} {} => {}", src_letter(src), ep, r));
+		self.n.stat(&format!("relay:{}:{}:{}", src_letter(src), if self.net.is_stem() { "stem-epoch" } else { "fluff-epoch" }, r));
+	}
+
+	/// "time passes": the stem entries at the given positions get older by `secs`
+	fn age(&mut self, which: &[usize], secs: i64) {
+		let mut p = self.n.pool.write();
+		for i in which {
+			if let Some(e) = p.stempool.entries.get_mut(*i) {
+				e.tx_at = e.tx_at - chrono::Duration::seconds(secs);
+			}
+		}
+	}
+
+	/// stem entries older than `secs` (as `select_txs_cutoff` decides), as registered transaction ids
+	fn older_than(&self, secs: i64) -> Vec<usize> {
+		let cutoff = chrono::Utc::now().timestamp() - secs;
+		let p = self.n.pool.read();
+		p.stempool.entries.iter().filter(|e| e.tx_at.timestamp() < cutoff).filter_map(|e| self.n.reg_id(&e.tx)).collect()
+	}
+
+	/// One pass of the loop of `monitor_transactions`, phase by phase through the verification hook
+	/// (`grin_servers::verif_export`: thin wrappers around the private `process_fluff_phase` /
+	/// `process_expired_entries`), so that the outcome of each phase is compared with the model.
+	fn monitor_pass(&mut self, force_expired: bool) {
+		self.mon.force_expired.store(force_expired, Ordering::SeqCst);
+		let adapter: Arc<dyn DandelionAdapter> = self.mon.clone();
+		let fluff_epoch = !adapter.is_stem();
+		let expired = adapter.is_expired();
+		let (stem_before, tx_before) = {
+			let p = self.n.pool.read();
+			(p.stempool.size(), p.txpool.size())
+		};
+		let old_agg = self.older_than(AGG_SECS as i64);
+		if fluff_epoch {
+			let pool = self.n.pool.clone();
+			let cfg = self.dcfg.clone();
+			let r = catch(std::panic::AssertUnwindSafe(|| verif_process_fluff_phase(&cfg, &pool, &adapter)));
+			let res = match &r {
+				Ok(Ok(())) => "ok".to_string(),
+				Ok(Err(e)) => format!("err:{}", perr(e)),
+				Err(p) => format!("panic:{}", p.replace(' ', "_")),
+			};
+			let lhs = format!("pool fluff_phase expired={} anyold={}", if expired { 1 } else { 0 }, if old_agg.is_empty() { 0 } else { 1 });
+			self.n.raw(&format!("{} => {}", lhs, res));
+			if res.starts_with("panic") {
+				self.n.raw(&format!("#ORACLE-FAIL C14 node-dandelion-monitor-panicked hist={} {} => {}", self.n.name, lhs, res));
+			}
+			let (stem_after, tx_after) = {
+				let p = self.n.pool.read();
+				(p.stempool.size(), p.txpool.size())
+			};
+			self.n.stat(&format!(
+				"fluff-phase:{}:stempool={}:agg-old={}:{}:{}",
+				if expired { "epoch-expired" } else { "epoch-running" },
+				stem_before.min(4),
+				old_agg.len().min(3),
+				res,
+				if tx_after > tx_before { format!("fluffed-{}-stem-entries", (stem_before - stem_after.min(stem_before)).min(4)) } else { "nothing-fluffed".to_string() }
+			));
+			self.n.p_obs(&lhs);
+		}
+		// (embargo_secs + a random 0..30 s: entries are either fresh or far older than both)
+		let old_emb = self.older_than(EMBARGO_SECS as i64 + 31);
+		{
+			let pool = self.n.pool.clone();
+			let cfg = self.dcfg.clone();
+			let (stem0, tx0) = {
+				let p = self.n.pool.read();
+				(p.stempool.size(), p.txpool.size())
+			};
+			let r = catch(std::panic::AssertUnwindSafe(|| verif_process_expired_entries(&cfg, &pool)));
+			let res = match &r {
+				Ok(Ok(())) => "ok".to_string(),
+				Ok(Err(e)) => format!("err:{}", perr(e)),
+				Err(p) => format!("panic:{}", p.replace(' ', "_")),
+			};
+			let lhs = format!("pool expire old=[{}]", idlist(&old_emb, "t", ","));
+			self.n.raw(&format!("{} => {}", lhs, res));
+			if res.starts_with("panic") {
+				self.n.raw(&format!("#ORACLE-FAIL C14 node-dandelion-monitor-panicked hist={} {} => {}", self.n.name, lhs, res));
+			}
+			let tx1 = self.n.pool.read().txpool.size();
+			self.n.stat(&format!("embargo:stempool={}:expired-entries={}:moved-to-txpool={}", stem0.min(4), old_emb.len().min(4), tx1.saturating_sub(tx0).min(4)));
+			if !old_emb.is_empty() {
+				self.n.p_obs(&lhs);
+			}
+		}
+		if adapter.is_expired() {
+			adapter.next_epoch();
+		}
+		self.mon.force_expired.store(false, Ordering::SeqCst);
+	}
+
+	/// the real monitor thread for one pass of its loop (it runs at once, then sleeps a second and
+	/// sees the stop flag): covers the glue of `monitor_transactions` itself
+	fn monitor_thread_pass(&mut self) {
+		let ep = self.epoch_args();
+		let old_agg = self.older_than(AGG_SECS as i64);
+		let old_emb = self.older_than(EMBARGO_SECS as i64 + 31);
+		let adapter: Arc<dyn DandelionAdapter> = self.mon.clone();
+		let stop = Arc::new(grin_util::StopState::new());
+		match monitor_transactions(self.dcfg.clone(), self.n.pool.clone(), adapter, stop.clone()) {
+			Ok(h) => {
+				std::thread::sleep(std::time::Duration::from_millis(300));
+				stop.stop();
+				let _ = h.join();
+			}
+			Err(e) => {
+				self.n.raw(&format!("#STAT monitor-thread:not-started:{:?}", e));
+				return;
+			}
+		}
+		let lhs = format!("pool monitor {} oldagg=[{}] oldemb=[{}]", ep, idlist(&old_agg, "t", ","), idlist(&old_emb, "t", ","));
+		self.n.raw(&format!("{} => ok", lhs));
+		self.n.stat("monitor-thread:passes");
+		self.n.p_obs(&lhs);
+	}
+
+	/// the miner: the real `mine_block::get_block` (through the verification hook) on the node's
+	/// chain and pool; a scratch chain decides whether the block is acceptable, then the node gets it
+	fn mine_block(&mut self, opts: Options) -> Option<usize> {
+		let set = self.n.pool.read().prepare_mineable_transactions().unwrap_or_default();
+		let sigs: Vec<String> = set.iter().map(|t| self.n.psig(t)).collect();
+		let (txc, rxc) = std::sync::mpsc::channel();
+		let chain = self.n.node.clone();
+		let pool = self.n.pool.clone();
+		// (get_block retries for ever when the builder fails: never wait for it without a limit)
+		std::thread::spawn(move || {
+			setup_globals();
+			global::set_local_accept_fee_base(FEE_BASE);
+			let r = catch(std::panic::AssertUnwindSafe(|| get_block(&chain, &pool, None, None)));
+			let _ = txc.send(r);
+		});
+		let parent = self.n.head;
+		let here = format!("hist={} head b{} mineable set [{}]", self.n.name, parent, sigs.join(","));
+		let b = match rxc.recv_timeout(std::time::Duration::from_secs(20)) {
+			Ok(Ok((b, fees))) => {
+				let want: u64 = set.iter().map(|t| t.fee()).sum();
+				if fees.fees != want || fees.height != self.n.kit.blks[parent].height + 1 {
+					self.n.raw(&format!(
+						"#ORACLE-FAIL C14 node-miner-block-fees {}: get_block reports fees {} at height {}, the mineable set pays {} and the next height is {}",
+						here, fees.fees, fees.height, want, self.n.kit.blks[parent].height + 1
+					));
+				}
+				b
+			}
+			Ok(Err(p)) => {
+				self.n.raw(&format!("#ORACLE-FAIL C14 node-miner-panicked {}: get_block panicked: {}", here, p));
+				self.n.raw("pool build_block => panic");
+				return None;
+			}
+			Err(_) => {
+				self.n.raw(&format!(
+					"#ORACLE-FAIL C14 node-miner-cannot-build-a-block {}: mine_block::get_block did not return within 20 s (build_block keeps failing and is retried for ever)",
+					here
+				));
+				self.n.raw(&format!("pool build_block => [{}]:rejected", sigs.join(",")));
+				return None;
+			}
+		};
+		// what the miner adds: a solution of the proof of work (the block hash is the hash of the
+		// proof; `Block::new` of the test code does the same)
+		let mut b = b;
+		b.header.pow.proof = pow::Proof::random(global::proofsize());
+		// the block holds exactly the kernels of the mineable set plus the coinbase kernel
+		let mut want_k: Vec<grin_core::core::hash::Hash> = set.iter().flat_map(|t| t.kernels().iter().map(|k| k.hash())).collect();
+		want_k.sort();
+		let mut got_k: Vec<grin_core::core::hash::Hash> =
+			b.kernels().iter().filter(|k| !matches!(k.features, KernelFeatures::Coinbase)).map(|k| k.hash()).collect();
+		got_k.sort();
+		if want_k != got_k || b.kernels().len() != got_k.len() + 1 {
+			self.n.raw(&format!(
+				"#ORACLE-FAIL C14 node-miner-block-content {}: the block built by get_block holds {} kernels ({} non-coinbase), the mineable set has {}",
+				here,
+				b.kernels().len(),
+				got_k.len(),
+				want_k.len()
+			));
+		}
+		if b.header.prev_hash != self.n.kit.blks[parent].block.hash() {
+			self.n.raw(&format!("#ORACLE-FAIL C14 node-miner-block-parent {}: get_block built on {:?}, not on the body head", here, b.header.prev_hash));
+		}
+		let limit = global::max_block_weight().min(250);
+		let verdict = if b.body.weight() > limit {
+			Err(format!("weight {} over the limit {}", b.body.weight(), limit))
+		} else {
+			self.n.kit.builder().process_block(b.clone(), Options::SKIP_POW).map(|_| ()).map_err(|e| format!("process_block:{}", error_class(&e)))
+		};
+		self.n.stat(&format!("miner:get_block:txs={}:{}", set.len().min(5), if verdict.is_ok() { "accepted" } else { "REJECTED" }));
+		match verdict {
+			Ok(()) => {
+				self.n.raw(&format!("pool build_block => [{}]:ok", sigs.join(",")));
+				let st = self.n.state_after(parent, &b);
+				let id = self.n.kit.record(b, parent, vec!["mined".into()], true);
+				self.n.states.insert(id, st);
+				self.n.p_deliver(id, opts, "mined-by-get_block");
+				Some(id)
+			}
+			Err(e) => {
+				self.n.raw(&format!("#ORACLE-FAIL C14 node-miner-block-rejected {}: the block built by mine_block::get_block is rejected by a chain: {}", here, e));
+				self.n.raw(&format!("pool build_block => [{}]:rejected", sigs.join(",")));
+				None
+			}
+		}
+	}
+}
+
+/// The reorg cache replays a transaction that conflicts with a stem transaction, with the pool
+/// driven by the real `ChainToPoolAndNetAdapter::block_accepted` only (reconcile_block, then on a
+/// reorg reconcile_reorg_cache): the txpool (max_pool_size 3) goes over capacity and evicts its
+/// cheapest transaction X (X stays in the reorg cache); a block brings it back under capacity; a
+/// stem transaction S on the output X spends, an unrelated stem transaction U and a stem child V of
+/// a pooled output are accepted; a sibling block with more work arrives (Reorg).  The oracle runs
+/// after every step; after the reorg S must be gone, U and V must still be there.
+fn run_replay_history(work: &str, variant: usize) -> (String, BTreeMap<String, u64>) {
+	let stem_ok = Arc::new(AtomicBool::new(true));
+	let so = stem_ok.clone();
+	let mut n: Node<PAdapter> = Node::with_adapter(work, &format!("replay{}", variant), 3, 5, move |_| Arc::new(PAdapter { stem_ok: so }));
+	n.stem_ok = stem_ok;
+	let mut rng = Rng::new(4242 + variant as u64);
+	for k in 0..10 {
+		let parent = n.head;
+		let mut txs = vec![];
+		if k >= 4 {
+			if let Some(o) = n.free_utxo().first().cloned() {
+				if let Some(t) = n.spend(&[o], 3, 5) {
+					txs.push(t);
+				}
+			}
+		}
+		if let Some(id) = build_with_fallback(&mut n, parent, 1, txs) {
+			let opts = pick_opts(&mut rng);
+			n.deliver(id, opts, "warm-up");
+		}
+	}
+	let fork_point = n.head;
+	let free = n.free_utxo();
+	if free.len() < 7 {
+		n.raw(&format!("#STAT replay{}:not-enough-outputs={}", variant, free.len()));
+		let Node { out, stats, .. } = n;
+		return (out, stats);
+	}
+	let w11 = 25 * FEE_BASE;
+	let a = n.spend(&[free[0]], 1, w11 * 6).unwrap();
+	let b = n.spend(&[free[1]], 1, w11 * 7).unwrap();
+	let c = n.spend(&[free[2]], 1, w11 * 8).unwrap();
+	let x = n.spend(&[free[3]], 1, w11).unwrap();
+	let d = n.spend(&[free[4]], 1, w11 * 9).unwrap();
+	n.submit(a.clone(), TxSource::Broadcast, false, true, "replay:A");
+	n.submit(b.clone(), TxSource::Broadcast, false, true, "replay:B");
+	n.submit(c, TxSource::Broadcast, false, true, "replay:C");
+	if variant == 1 {
+		n.submit(d.clone(), TxSource::Broadcast, false, true, "replay:D");
+		n.submit(x.clone(), TxSource::Broadcast, false, true, "replay:X-cheapest-arrives-last");
+	} else {
+		n.submit(x.clone(), TxSource::Broadcast, false, true, "replay:X-cheapest");
+		n.submit(d.clone(), TxSource::Broadcast, false, true, "replay:D-evicting");
+	}
+	let has = |n: &Node<PAdapter>, t: &Transaction, stem: bool| -> bool {
+		let p = n.pool.read();
+		let pool = if stem { &p.stempool } else { &p.txpool };
+		pool.entries.iter().any(|e| e.tx.kernels() == t.kernels())
+	};
+	let x_evicted = !has(&n, &x, false);
+	let x_cached = n.pool.read().reorg_cache.read().iter().any(|e| e.tx.kernels() == x.kernels());
+	n.raw(&format!("#STAT replay{}:X-evicted={}:X-in-reorg-cache={}", variant, x_evicted, x_cached));
+	if let Some(id) = build_with_fallback(&mut n, fork_point, 1, vec![a, b]) {
+		n.deliver(id, Options::NONE, "confirms-A-B");
+	}
+	let s_tx = n.spend(&[free[3]], 1, w11 * 5).unwrap();
+	let u_tx = n.spend(&[free[5]], 1, w11 * 5).unwrap();
+	let od = n.tx_outs(&d)[0];
+	let v_tx = n.spend(&[od], 1, w11 * 5).unwrap();
+	n.submit(s_tx.clone(), TxSource::PushApi, true, true, "replay:S-stem-conflicts-with-X");
+	n.submit(u_tx.clone(), TxSource::PushApi, true, true, "replay:U-stem-unrelated");
+	n.submit(v_tx.clone(), TxSource::PushApi, true, true, "replay:V-stem-child-of-D");
+	let before = (has(&n, &s_tx, true), has(&n, &u_tx, true), has(&n, &v_tx, true));
+	// the competing branch
+	let branch = if variant == 2 { vec![x.clone()] } else { vec![] };
+	let mut res = String::new();
+	if let Some(id) = build_with_fallback(&mut n, fork_point, 10, branch) {
+		res = n.deliver(id, if variant == 1 { Options::SYNC } else { Options::NONE }, "competing-branch");
+	}
+	let after = (has(&n, &s_tx, true), has(&n, &u_tx, true), has(&n, &v_tx, true));
+	let x_back = has(&n, &x, false);
+	n.raw(&format!(
+		"#STAT replay{}:competing-block={}:X-back-in-txpool={}:stempool-S-U-V-before={:?}:after={:?}",
+		variant, res, x_back, before, after
+	));
+	if res == "reorg" && before == (true, true, true) {
+		if after.0 {
+			n.raw(&format!(
+				"#ORACLE-FAIL C14 node-stem-transaction-conflicting-with-replayed-transaction-kept hist=replay{}: after the reorg the reorg cache put X ({}) back into the txpool = {}, and the stem transaction S ({}) spending the same output is still in the stempool",
+				variant,
+				n.sig(&x),
+				x_back,
+				n.sig(&s_tx)
+			));
+		}
+		if !after.1 || !after.2 {
+			n.raw(&format!(
+				"#ORACLE-FAIL C14 node-unrelated-stem-transaction-lost-in-reorg hist=replay{}: U ({}) still pooled: {}, V ({}) still pooled: {}",
+				variant,
+				n.sig(&u_tx),
+				after.1,
+				n.sig(&v_tx),
+				after.2
+			));
+		}
+	}
+	for _ in 0..2 {
+		let set = n.pool.read().prepare_mineable_transactions().unwrap_or_default();
+		let parent = n.head;
+		if let Some(id) = build_with_fallback(&mut n, parent, 1, set) {
+			n.deliver(id, Options::MINE, "mineable-set");
+		}
+	}
+	let Node { out, stats, .. } = n;
+	(out, stats)
+}
+
+fn run_monitor_history(work: &str, hist: usize, seed: u64, rounds: usize) -> (String, BTreeMap<String, u64>) {
+	let mut rng = Rng::new(seed.wrapping_mul(7_000_003).wrapping_add(90_001 * (hist as u64 + 1)));
+	// stem_probability 0: every epoch after the first is a fluff epoch (the stempool fills up and
+	// the monitor fluffs it); 100: stem epochs only (no relay peer: every stem submission is fluffed
+	// at once, the monitor only handles the embargo)
+	let stem_probability = if hist % 3 == 2 { 100 } else { 0 };
+	let always = hist % 2 == 0;
+	let (max_pool, max_stem) = if hist % 4 == 1 { (3, 2) } else { (50, 50) };
+	let mut m = Mon::new(work, &format!("m{}", hist), stem_probability, always, max_pool, max_stem);
+	m.n.p_cfg();
+	m.n.raw(&format!(
+		"# monitor history m{}: stem_probability={} always_stem_our_txs={} max_pool_size={} max_stempool_size={}",
+		hist, stem_probability, always, max_pool, max_stem
+	));
+	for k in 0..8 {
+		let parent = m.n.head;
+		let mut txs = vec![];
+		if k >= 4 {
+			let free = m.n.free_utxo();
+			if let Some(o) = free.first().cloned() {
+				if let Some(t) = m.n.spend(&[o], 3, 5) {
+					txs.push(t);
+				}
+			}
+		}
+		if let Some(id) = build_with_fallback(&mut m.n, parent, 1, txs) {
+			m.n.p_deliver(id, Options::NONE, "warm-up");
+		}
+	}
+	// the first pass of a fresh node: stem epoch whose start time is unset (expired): the monitor
+	// only moves on to the next epoch
+	m.monitor_pass(false);
+	for round in 0..rounds {
+		let count = rng.range(2, 4) as usize;
+		for _ in 0..count {
+			let free = m.n.free_utxo();
+			let (txs, stem) = m.n.entries();
+			let spent = m.n.pool_spent();
+			let stem_path = rng.chance(7, 10);
+			let mut pool_outs: Vec<usize> = txs.iter().flat_map(|t| m.n.tx_outs(t)).filter(|o| !spent.contains(o)).collect();
+			if stem_path {
+				pool_outs.extend(stem.iter().flat_map(|t| m.n.tx_outs(t)).filter(|o| !spent.contains(o)));
+			}
+			let roll = rng.below(10);
+			let (ins, kind): (Vec<usize>, &str) = if roll < 3 && !pool_outs.is_empty() {
+				(vec![*rng.pick(&pool_outs)], "child")
+			} else if roll == 3 && !stem.is_empty() && !stem_path {
+				// a fluff transaction double-spending an input a stem entry takes from the chain
+				let cands: Vec<usize> = stem.iter().flat_map(|t| m.n.tx_ins(t)).filter(|i| m.n.unspent(*i)).collect();
+				if cands.is_empty() {
+					continue;
+				}
+				(vec![*rng.pick(&cands)], "conflicts-with-stem-entry")
+			} else if !free.is_empty() {
+				let mut v = vec![*rng.pick(&free)];
+				if free.len() >= 2 && rng.chance(1, 4) {
+					let o = *rng.pick(&free);
+					if o != v[0] {
+						v.push(o);
+					}
+				}
+				(v, "spend")
+			} else {
+				continue;
+			};
+			let nout = rng.range(1, 3) as usize;
+			let low = rng.chance(1, 10);
+			let fee = if low {
+				((ins.len() as u64 + 21 * nout as u64 + 3) * FEE_BASE).saturating_sub(1 + rng.below(5))
+			} else {
+				fee_for(&mut rng, ins.len(), nout)
+			};
+			let label = if low { format!("low-fee-{}", kind) } else { kind.to_string() };
+			if let Some(tx) = m.n.spend(&ins, nout, fee) {
+				if rng.chance(1, 2) {
+					let syncing = rng.chance(1, 8);
+					m.receive(tx, stem_path, syncing, &label);
+				} else {
+					let src = if rng.chance(3, 4) { TxSource::PushApi } else { pick_src(&mut rng) };
+					m.push(tx, src, stem_path, &label);
+				}
+			}
+		}
+		if stem_probability == 0 && max_stem > 10 && rng.chance(1, 3) {
+			// a stempool too heavy to be fluffed as ONE transaction (max_tx_weight): the fluff phase
+			// fails, the entries stay until their embargo runs out and are then fluffed one by one
+			for _ in 0..5 {
+				let free = m.n.free_utxo();
+				if free.is_empty() {
+					break;
+				}
+				let o = *rng.pick(&free);
+				let fee = fee_for(&mut rng, 1, 2);
+				if let Some(tx) = m.n.spend(&[o], 2, fee) {
+					m.push(tx, TxSource::PushApi, true, "stuffing-the-stempool");
+				}
+			}
+		}
+		if rng.chance(1, 3) {
+			m.probe_relay(if rng.chance(1, 2) { TxSource::PushApi } else { TxSource::Broadcast });
+		}
+		// time passes for some of the stem entries: past the aggregation timer, or past the embargo too
+		let nstem = m.n.pool.read().stempool.size();
+		if nstem > 0 {
+			match rng.below(5) {
+				0 => {}
+				1 | 2 => {
+					let i = rng.below(nstem as u64) as usize;
+					m.age(&[i], AGG_SECS as i64 + 500);
+				}
+				3 => {
+					let all: Vec<usize> = (0..nstem).collect();
+					m.age(&all, EMBARGO_SECS as i64 + 5000);
+				}
+				_ => {
+					let i = rng.below(nstem as u64) as usize;
+					m.age(&[i], EMBARGO_SECS as i64 + 5000);
+				}
+			}
+		}
+		// the epoch timer has run out in one round of four (the fluff epoch then fluffs whatever
+		// the age of the entries)
+		m.monitor_pass(rng.chance(1, 4));
+		if round % 2 == 1 || rng.chance(1, 3) {
+			// the next block: what the miner builds from the pool, or a block that confirms / conflicts
+			let parent = m.n.head;
+			if rng.chance(1, 2) {
+				let opts = pick_opts(&mut rng);
+				m.mine_block(opts);
+			} else {
+				let (txs, what) = block_content(&mut m.n, &mut rng, parent);
+				if let Some(id) = build_with_fallback(&mut m.n, parent, 1, txs) {
+					m.n.p_deliver(id, pick_opts(&mut rng), what);
+				}
+			}
+		}
+	}
+	// everything still in the stempool runs into its embargo
+	let nstem = m.n.pool.read().stempool.size();
+	let all: Vec<usize> = (0..nstem).collect();
+	m.age(&all, EMBARGO_SECS as i64 + 5000);
+	if hist == 0 {
+		m.monitor_thread_pass();
+	} else {
+		m.monitor_pass(false);
+	}
+	m.mine_block(Options::MINE);
+	let Mon { n, .. } = m;
+	let Node { out, stats, .. } = n;
+	(out, stats)
+}
+
 fn main() {
 	quiet_panics();
 	setup_globals();
@@ -713,8 +1546,13 @@ fn main() {
 	let seed = seed_from_env();
 	let thorough = tier_thorough();
 	let args: Vec<String> = std::env::args().collect();
-	let nh: usize = args.get(1).and_then(|s| s.parse().ok()).unwrap_or(if thorough { 10 } else { 3 });
-	let rounds: usize = args.get(2).and_then(|s| s.parse().ok()).unwrap_or(if thorough { 30 } else { 10 });
+	let monitor = args.get(1).map(|s| s == "monitor").unwrap_or(false);
+	let args: Vec<String> = if monitor { args[1..].to_vec() } else { args };
+	let nh: usize = args.get(1).and_then(|s| s.parse().ok()).unwrap_or(if monitor { if thorough { 12 } else { 3 } } else if thorough { 10 } else { 3 });
+	let rounds: usize = args.get(2).and_then(|s| s.parse().ok()).unwrap_or(if monitor { if thorough { 20 } else { 6 } } else if thorough { 30 } else { 10 });
+	// the regular run ends with the scripted reorg-replay histories
+	const NREPLAY: usize = 3;
+	let nh = if monitor { nh } else { nh + NREPLAY };
 	let nthreads = std::env::var("VERIF_THREADS").ok().and_then(|s| s.parse().ok()).unwrap_or(4usize).max(1).min(nh.max(1));
 	let next = Mutex::new(0usize);
 	let results: Mutex<Vec<Option<(String, BTreeMap<String, u64>)>>> = Mutex::new((0..nh).map(|_| None).collect());
@@ -740,7 +1578,15 @@ fn main() {
 					}
 					let dir = format!("{}/n{}", work, h);
 					let _ = std::fs::create_dir_all(&dir);
-					let r = std::panic::catch_unwind(std::panic::AssertUnwindSafe(|| run_history(&dir, h, seed, rounds)));
+					let r = std::panic::catch_unwind(std::panic::AssertUnwindSafe(|| {
+						if monitor {
+							run_monitor_history(&dir, h, seed, rounds)
+						} else if h >= nh - NREPLAY {
+							run_replay_history(&dir, h - (nh - NREPLAY))
+						} else {
+							run_history(&dir, h, seed, rounds)
+						}
+					}));
 					let res = match r {
 						Ok(x) => x,
 						Err(_) => {
@@ -760,8 +1606,13 @@ fn main() {
 	let mut total: BTreeMap<String, u64> = BTreeMap::new();
 	writeln!(
 		lock,
-		"#STAT poolnode: real Chain + servers::ChainToPoolAndNetAdapter + TransactionPool over PoolToChainAdapter, Peers without peers; {} histories of {} rounds; max_pool_size 50, accept_fee_base {}",
-		nh, rounds, FEE_BASE
+		"#STAT poolnode{}: real Chain + servers::ChainToPoolAndNetAdapter + TransactionPool over PoolToChainAdapter{}, Peers without peers; {} histories of {} rounds{}; accept_fee_base {}",
+		if monitor { " monitor" } else { "" },
+		if monitor { " and PoolToNetAdapter; NetToChainAdapter::transaction_received, dandelion_monitor phases and mine_block::get_block through grin_servers::verif_export" } else { "" },
+		nh,
+		rounds,
+		if monitor { "; (max_pool_size,max_stempool_size) (50,50) or (3,2); aggregation_secs 3000, embargo_secs 6000 (timers fire for backdated entries only)" } else { " (the last 3 histories are the scripted reorg-replay histories, max_pool_size 3); max_pool_size 50" },
+		FEE_BASE
 	)
 	.unwrap();
 	for (h, r) in results.into_inner().unwrap().into_iter().enumerate() {
